@@ -653,7 +653,12 @@ def main(run, shard=(0, 1)) -> None:
     bad_returns: List[Tuple[str, Tuple[float, float, float]]] = []
 
     def on_angle(a, code) -> None:
-        p, y, r = a._pitch, a._yaw, a._roll
+        p, y, r = getattr(a, '_pitch', None), getattr(a, '_yaw', None), getattr(a, '_roll', None)
+        if p is None or y is None or r is None:
+            # roll is set (so the constructor finished with this object) but another component never was
+            if len(bad_returns) < 20:
+                bad_returns.append((code.co_qualname, (p, y, r)))
+            return
         if not (0.0 <= p < 360.0 and 0.0 <= y < 360.0 and 0.0 <= r < 360.0):
             if len(bad_returns) < 20:
                 bad_returns.append((code.co_qualname, (p, y, r)))
@@ -669,7 +674,7 @@ def main(run, shard=(0, 1)) -> None:
             run_history(run, run.seed, 'history', i, 40)
             if bad_returns:
                 for qual, vals in bad_returns:
-                    key = 'angle-is-360' if 360.0 in vals else 'angle-out-of-range'
+                    key = 'angle-component-unset' if None in vals else 'angle-is-360' if 360.0 in vals else 'angle-out-of-range'
                     run.violation(f'{qual} returned an angle outside [0, 360): {vals}', case={'id': i, 'engine': 'history'},
                                   engine='return-probe', key=key)
                 bad_returns.clear()
